@@ -168,6 +168,26 @@ def wf_mbody(o) -> bool:
             and forall_range(dict_len(o._parameters), lambda j: wf_map_arg(dict_val_at(o._parameters, j))))
 
 
+@spec
+def filled(sx) -> bool:
+    """C06, 'fill-in rewrites the reference to that fundamental qubit, in any statement position': an S-expression in
+    which every qubit reference (and every whole register) is written on a declared register, to any nesting depth,
+    and in which no un-rewritten statement object of the input is left"""
+    if isinstance(sx, list):
+        # by the grammar of statement S-expressions: ["gate", name, args...], ["loop", count, block],
+        # ["subcircuit_block", count, statements...], ["sequential_block" | "parallel_block", statements...]
+        if len(sx) >= 2 and (sx[0] == "gate" or sx[0] == "subcircuit_block"):
+            return forall_range(len(sx) - 2, lambda k: filled(sx[k + 2]))
+        if len(sx) == 3 and sx[0] == "loop":
+            return filled(sx[2])
+        return len(sx) >= 1 and (sx[0] == "sequential_block" or sx[0] == "parallel_block") and forall_range(len(sx) - 1, lambda k: filled(sx[k + 1]))
+    if type_is(sx, NamedQubit):
+        return type_is(sx._alias_from, Register) and sx._alias_from._alias_from is None
+    if type_is(sx, Register):
+        return sx._alias_from is None
+    return not (isinstance(sx, GateStatement) or isinstance(sx, BlockStatement) or isinstance(sx, LoopStatement))
+
+
 @contract("core.algorithm.fill_in_map:MapFiller.visit_GateStatement", props=["C10", "C06"])
 class MapGate:
     """emits ["gate", name, args...] with one entry per argument, in order: a qubit reference becomes the
@@ -188,6 +208,9 @@ class MapGate:
                                     and same(result[j + 2]._alias_from, root(dict_val_at(gate._parameters, j)._alias_from))
                                     and same(result[j + 2]._alias_index, phys(dict_val_at(gate._parameters, j)._alias_from, ival(dict_val_at(gate._parameters, j)._alias_index))))
                             and implies(not type_is(dict_val_at(gate._parameters, j), NamedQubit), same(result[j + 2], dict_val_at(gate._parameters, j))))
+
+    def ensures_filled(self, gate, result):
+        return filled(result)
 
     raises_only = ("JaqalError",)
 
@@ -220,7 +243,7 @@ class MapRegister:
     raises_only = ("JaqalError",)
 
 
-@contract("core.algorithm.fill_in_map:MapFiller.visit_BlockStatement", props=["C10", "C11"])
+@contract("core.algorithm.fill_in_map:MapFiller.visit_BlockStatement", props=["C10", "C11", "C06"])
 class MapBlock:
     """emits the block kind the input has - a subcircuit block stays a subcircuit block with its count - and one
     entry per child statement"""
@@ -240,10 +263,13 @@ class MapBlock:
         return implies(not block._subcircuit and not block._parallel, isinstance(result, list) and len(result) == len(block._statements) + 1
                        and result[0] == "sequential_block")
 
+    def ensures_filled(self, block, result):
+        return filled(result)
+
     raises_only = ("JaqalError",)
 
 
-@contract("core.algorithm.fill_in_map:MapFiller.visit_LoopStatement", props=["C10", "C11"])
+@contract("core.algorithm.fill_in_map:MapFiller.visit_LoopStatement", props=["C10", "C11", "C06"])
 class MapLoop:
     """emits ["loop", <the same count>, <block>]"""
 
@@ -253,4 +279,31 @@ class MapLoop:
     def ensures(self, loop, result):
         return isinstance(result, list) and len(result) == 3 and result[0] == "loop" and same(result[1], loop._iterations)
 
+    def ensures_filled(self, loop, result):
+        return filled(result)
+
+    raises_only = ("JaqalError",)
+
+
+from jaqalpaq.core.macro import Macro
+
+
+@contract("core.algorithm.fill_in_map:MapFiller.visit_Macro", props=["C10", "C06"])
+class MapMacro:
+    """a macro is re-emitted as ["macro", name, <parameter names in order>, <body>] with every alias reference of the
+    body rewritten onto its declared register; the visitor's scratch field is reset on every exit"""
+
+    def requires(self, macro):
+        return (wf_mapfiller(self) and type_is(macro, Macro) and is_str(macro._name) and isinstance(macro._parameters, list)
+                and forall_range(len(macro._parameters), lambda k: type_is(macro._parameters[k], Parameter) and is_str(macro._parameters[k]._name))
+                and type_is(macro._body, BlockStatement) and wf_mbody(macro._body))
+
+    def ensures_shape(self, macro, result):
+        return (isinstance(result, list) and len(result) == len(macro._parameters) + 3 and result[0] == "macro" and result[1] == macro._name
+                and forall_range(len(macro._parameters), lambda k: result[k + 2] == macro._parameters[k]._name))
+
+    def ensures_body(self, macro, result):
+        return filled(result[len(macro._parameters) + 2])
+
+    modifies = ("self.hidden_names",)
     raises_only = ("JaqalError",)
